@@ -377,8 +377,11 @@ class Verdict:
                 json.dump({"property": self.pid, "sig": sig, "desc": desc, "seed": self.seed,
                            "tier": self.tier, "replay": replay}, fh, indent=1, default=str)
             replay_paths.append(path)
-            print("VIOLATION property=%s replay=%s" % (self.pid, path))
-            print("  sig=%s %s" % (sig, desc))
+            if len(replay_paths) <= 12:
+                print("VIOLATION property=%s replay=%s" % (self.pid, path))
+                print("  sig=%s %s" % (sig[:200], desc[:300]))
+            elif len(replay_paths) == 13:
+                print("  ... further violations are only written to %s" % outdir(self.pid))
         cov = dict(self.cov)
         if not cov["samples"]:
             cov["samples"] = ["(none)"]
